@@ -16,6 +16,8 @@ THEOREMS = [
     "C14.routed_meets_spec",
     "C14.multi_manager_meets_spec",
     "C14.multi_first_column",
+    "C14.multiTraceC_no_ctl",
+    "C14.multiObsTraceC_no_ctl",
     "C14.eviction_hypothesis_needed",
     "C14.no_duplicates_needs_unique_ids",
 ]
@@ -37,7 +39,15 @@ RULE = ("cases = corpus + every 2+2 configuration over ts in {0,2} x key in {0,1
         "+ N/6 MULTI-JOIN configurations: 1..3 joins registered on ONE StreamJoinManager over streams a..e (chains ab+bc in both "
         "registration orders, mutual ab+ba, cycles, fan-out/fan-in, duplicate pairs, disjoint, random), a stream being the right "
         "input of one join and the left input of another, per-join windows/conditions, ALL merges of the per-stream sequences "
-        "(<= 90, else 90 sampled), the three watermark variants on random streams incl. unconsumed ones. "
+        "(<= 90, else 90 sampled), the three watermark variants on random streams incl. unconsumed ones "
+        "+ N/6 configurations with joins UNREGISTERED AND REGISTERED AGAIN under the same id on the live manager (8 merges each, "
+        "thorough 24; unregister+register before the first event - once or several times, for one or two of the joins -, back to "
+        "back in the middle of a run, away while traffic goes on, gone for good, with tracking watermarks): a join registered "
+        "again starts empty and each of its lives is checked against the reference join of what arrived during that life, it "
+        "must stay silent while away, the other joins must not notice. "
+        "KEY FIELDS: the left key extractor reads data[k], the right one data[rk] (two different closures); half of the random "
+        "configurations (a third of the long / large-timestamp ones) put decoy values under the field only the OTHER side's "
+        "extractor reads (own key, another key, an unused key; also on key-less events) - the decoy must not matter. "
         "Observation = id pairs of the Vec<JoinedEvent> of every call, sorted within the call (multi-join: one batch per "
         "registered join and call = what that join's result handler received). Each case is run on the real "
         "code and on the Lean model (diffed) and the Spec predicate C14.mgrOk/runOk/multiOk (emitted so far within the reference "
@@ -56,7 +66,10 @@ ASSUMPTIONS = [
     "timestamps are u64 within the i64 range (the code casts `as i64`), modelled as Nat embedded in Int; watermark is an Int; "
     "watermark - timestamp stays within i64 (generated: timestamps <= 2^63 - 2^20 + small, watermarks >= -4); exercised up to 19-digit values",
     "multi-join manager: join ids pairwise distinct, no join with left_stream == right_stream (it would be indexed twice under its "
-    "stream), no unregister_join during the run; stream names are arbitrary and may be shared between joins in any roles",
+    "stream); unregister_join / register_join of the same id during the run strictly alternate per join id (registering an id "
+    "that is still registered would list it twice under its streams - not generated); the lives of a re-registered join are "
+    "specified by Spec.multiOkC / livesOk (oracle + model correspondence; theorem: conservative over the proven multi-join loop); "
+    "stream names are arbitrary and may be shared between joins in any roles",
     "the window is duration.as_secs() in timestamp units - the code's own convention (DESIGN section 8)",
     "inner join with JoinStrategy::TimeWindow only; outer-join emission and Count/Session strategies are outside the model",
     "'evicted' is what the front eviction of update_watermark removes (model semantics; noPartnerEvicted is computed from the case)",
